@@ -11,6 +11,9 @@ import (
 // addrs maps abstract address numbers to real "ip:port" strings (filled by setup()).
 var addrs [NAddr]string
 
+// brokenHost: the host name whose stored certificate is unreadable in every storage the harness uses.
+const brokenHost = "broken.internal"
+
 func faultName(f int) string {
 	switch f {
 	case 3:
@@ -118,12 +121,20 @@ func renderApp(a App) obj {
 				routes = append(routes, obj{"handle": []any{renderGuest(m, 3, j+1, "handler", "verif_probe")}})
 			}
 		}
+		autoHTTPS := obj{"disable": true}
+		if a.Fault == 6 {
+			// a host name to manage a certificate for; its stored certificate is corrupt (see setup),
+			// so certificate management cannot be started at the end of Start (automaticHTTPSPhase2)
+			autoHTTPS = obj{"disable_redirects": true}
+			routes = append(routes, obj{"match": []any{obj{"host": []any{brokenHost}}},
+				"handle": []any{obj{"handler": "static_response", "body": "broken"}}})
+		}
 		routes = append(routes, obj{"handle": []any{obj{"handler": "static_response", "body": "T" + strconv.Itoa(a.Tag)}}})
 		o := obj{
 			"servers": obj{"s": obj{
 				"listen":            listen,
 				"listener_wrappers": []any{obj{"wrapper": "verif_probe"}},
-				"automatic_https":   obj{"disable": true},
+				"automatic_https":   autoHTTPS,
 				"protocols":         []any{"h1"},
 				"routes":            routes,
 			}},
@@ -168,6 +179,10 @@ func Render(c Cfg, admOn bool) []byte {
 	apps := obj{}
 	for _, a := range c.Apps {
 		apps[appKey(a.Name)] = renderApp(a)
+		if a.IsHTTP() && a.Fault == 6 {
+			apps["pki"] = obj{"certificate_authorities": obj{"local": obj{"install_trust": false}}}
+			apps["tls"] = obj{"automation": obj{"policies": []any{obj{"issuers": []any{obj{"module": "internal"}}}}}}
+		}
 	}
 	admin := obj{"disabled": true, "config": obj{"persist": false,
 		"load": obj{"module": "verif_probe"}, "load_delay": "1h"}}
